@@ -1713,12 +1713,17 @@ impl<'a> Tycker<'a> {
         }
     }
     fn collect_hole_solutions(&mut self) {
-        self.observations.extend(self.statics.fill_hints.iter().map(|(id, ())| {
-            TyckObservation::HoleSolution {
-                site: self.statics.fills[id],
-                solution: self.statics.solus.get(id).copied(),
-            }
-        }));
+        // `fill_hints` is hash-ordered by identifiers whose key spaces depend on
+        // what the process checked before; report the solutions in site order.
+        let mut solutions = (self.statics.fill_hints.iter())
+            .map(|(id, ())| (self.statics.fills[id], self.statics.solus.get(id).copied()))
+            .collect::<Vec<_>>();
+        solutions.sort_by_key(|(site, _)| *site);
+        self.observations.extend(
+            solutions
+                .into_iter()
+                .map(|(site, solution)| TyckObservation::HoleSolution { site, solution }),
+        );
     }
 }
 
